@@ -36,6 +36,37 @@ CHECKS = {
              text="For arbitrary (also invalid / empty / nested) values of all types, coords_count, coords_iter, exterior_coords_iter, lines_iter, map_coords(_in_place), try_map_coords (Ok and first error), bounding_rect, extremes and is_empty are compared with a reference traversal over the public fields, via the concrete type and the Geometry enum.",
              note="Holes are kept inside the shell's bounding box (Polygon::bounding_rect is documented to use the exterior).", ref="DESIGN.md §4 C19"),
 }
+
+CHECKS.update({
+ "C04": dict(tech="proptest generated (Multi)Polygon pairs vs exact trapezoid decomposition of the joint arrangement (membership + area oracle), metamorphic area identities",
+             text="For intersection / union / difference / xor / boolean_op, unary_union and clip, the result's membership at every arrangement cell sample away from the input boundaries, its area, ring winding and closure, the three area identities, and the kept / dropped line lengths are compared with exact values from a trapezoid decomposition of the joint arrangement.",
+             note="Trusted: exact cell decomposition; tolerance 2^-20 extent + 8 ulp, far above the overlay engine's 2^-29 extent grid.", ref="DESIGN.md §4 C04"),
+ "C07": dict(tech="proptest generated pairs vs exact rational minimum squared distance and exact DE-9IM (zero iff intersecting)",
+             text="Euclidean distance for every ordered type pair, the enum path and re-representations is compared with sqrt of the exact minimum squared distance over primitive pairs; it must be exactly 0.0 iff the exact DE-9IM says the operands intersect.",
+             note="Trusted: exact reference model; relative tolerance 1e-12 + 4 ulp of the coordinate magnitude.", ref="DESIGN.md §4 C07"),
+ "C10": dict(tech="proptest generated valid polygons vs exact coverage-count oracle on the arrangement of polygon and piece edges",
+             text="Ear-cut, constrained / outer / unconstrained Delaunay triangles and monotone pieces must cover every arrangement cell inside the polygon (resp. hull) exactly once and none outside, use only polygon vertices, sum to the exact area; MonotonicPolygons::intersects is compared with exact point location on a lattice; stitching must reproduce the area.",
+             note="Trusted: exact trapezoid decomposition and point location; TriangulationError results are counted, not alarmed.", ref="DESIGN.md §4 C10"),
+ "C12": dict(tech="proptest generated geometries and query points vs exact point location / exact distance",
+             text="closest_point must be Intersection iff the query intersects the geometry, otherwise a point on the geometry at the true distance, never Indeterminate for valid non-empty input; interior_point (concrete and enum) must return a point that is exactly located on the geometry, strictly inside for areal ones; no panics.",
+             note="Trusted: exact reference model; returned f64 points are dyadic rationals and located exactly when mapping back through the similarity is exact.", ref="DESIGN.md §4 C12"),
+ "C13": dict(tech="proptest algebraic laws on generated matrix chains + metamorphic commutation of geo's algorithms with exact similarity maps",
+             text="compose / compose_many / inverse / apply laws (exact for i64, 1e-12 for f64), every Rotate / Scale / Skew / Translate form vs the documented matrix about the documented origin, and equality of relate, predicates, coordinate_position, hull, winding (and exact scaling of area, length, distance, centroid, bounding_rect) before and after exact similarity maps.",
+             note="No external oracle needed: geo is compared with itself and with the matrix definition.", ref="DESIGN.md §4 C13"),
+ "C14": dict(tech="proptest generated valid polygons and single-operator mutants vs exact validity model (literal transcription of the statement)",
+             text="is_valid, validation_errors and check_validation on valid inputs and on bow-ties, spikes, collinear rings, displaced / edge-sharing / nested holes, overlapping / edge-sharing members and non-finite coordinates are compared with an exact validity model that also names the defective ring or member; reported errors must be confirmed by it when exactly one defect exists.",
+             note="Trusted: exact ring simplicity and exact DE-9IM between rings; connected interiors are not demanded (not in the statement).", ref="DESIGN.md §4 C14"),
+ "C15": dict(tech="proptest generated lines / ratios / segment lengths vs an independent arc-length walk and structural densify predicate",
+             text="The four interpolation forms, the deprecated one, line_locate_point round trip, Length, and densify (structure, exact insertion count, on-segment, length conservation, maximum segment length) are compared with an independent arc-length computation at boundary ratios and exact-divisor lengths.",
+             note="Tolerance 1e-9 (L + max|coord|).", ref="DESIGN.md §4 C15"),
+ "C16": dict(tech="proptest generated lon/lat pairs (antimeridian, poles, near-coincident, near-antipodal) vs the round-trip / metric identities of the statement",
+             text="Per metric space: non-negativity, symmetry, bearing range, destination(bearing, distance) round trip and ratio split within 1 mm + 1e-9 d on the well-conditioned sub-domain, length additivity, periodicity / oddness of destination, radius linearity, Geodesic-on-sphere = Haversine, deprecated forms identical.",
+             note="No external reference values; tolerances calibrated on the pinned tree; the ill-conditioned near-east-west rhumb band is excluded.", ref="DESIGN.md §4 C16"),
+ "C20": dict(tech="proptest generated workloads: repeated in-process execution, rayon pools of 1/2/3/16 threads, and re-execution in fresh processes; bit-exact output digests",
+             text="Each workload (Boolean ops incl. inputs above the overlay engine's parallel thresholds, stitching, triangulations, concave hulls, outliers) must render bit-identically when repeated, after unrelated work, under four rayon pool sizes and in fresh processes with RAYON_NUM_THREADS = 1, 2, 16.",
+             note="Schedules inside rayon are sampled, not enumerated.", ref="DESIGN.md §4 C20"),
+})
+
 NOT_YET = {}
 props = [json.loads(l) for l in open("properties.jsonl")]
 checks = []
